@@ -408,8 +408,9 @@ class XMLSchemaConverter(NamespaceMapper):
                 else:
                     if not isinstance(result, MutableSequence) or not result:
                         result_dict[name] = self.list_class((result, value))
-                    elif isinstance(result[0], MutableSequence) or \
+                    elif isinstance(result[0], MutableSequence) or result[0] is None or \
                             not isinstance(value, MutableSequence):
+                        # a None is never an item of a list value: it's an empty occurrence
                         result.append(value)
                     else:
                         result_dict[name] = self.list_class((result, value))
@@ -484,7 +485,7 @@ class XMLSchemaConverter(NamespaceMapper):
                 ns_name = self.unmap_qname(name)
                 xsd_child = xsd_element.match_child(ns_name)
                 if xsd_child is not None:
-                    if xsd_child.type and xsd_child.type.is_list():
+                    if xsd_child.type and xsd_child.type.is_list() and None not in value:
                         content.append((ns_name, value))
                     else:
                         content.extend((ns_name, item) for item in value)
